@@ -31,6 +31,8 @@ def _cpp_call(fn, argnames):
     s = fn.sig
     if fn.level in ("kernel", "api"):
         targs = "<" + ", ".join(s.targs) + ">" if s.targs else ""
+        if any(p.core.startswith("xsimd::batch_bool_constant<") for p in fn.ptypes):
+            targs = ""      # a value pack followed by a defaulted parameter cannot be spelled: every argument is deducible from the call
         args = []
         it = iter(argnames)
         for p in fn.ptypes:
